@@ -286,9 +286,7 @@ def write_text(root):
         return "NOTEXT:psykal"
     try:
         return FortranWriter()(root)
-    except BaseException as err:     # noqa - the writer refusing is an answer
-        if isinstance(err, (KeyboardInterrupt, SystemExit)):
-            raise
+    except Exception as err:     # noqa - the writer refusing is an answer
         return "ERR:" + type(err).__name__
 
 
